@@ -3,7 +3,7 @@
    argument: code point 1 separates the fields of a record, 2 terminates the items of a list,
    3 terminates the items of an outer / nested list, 4 separates the halves of a pair inside a
    list item.  The conventions are mirrored in harness/check_C15.py and harness/impl/c15.py. *)
-From MV Require Import Base.Strs Intro.Path Intro.Model Intro.Spec Intro.Judge.
+From MV Require Import Base.Strs Intro.Path Intro.Model Intro.Spec Intro.Judge Intro.Options.
 Open Scope N_scope.
 
 Definition fields (s : str) : list str := split_on 1 s.
@@ -151,6 +151,19 @@ Definition dec_run (s : str) : run_obs :=
   {| ro_tags := unlist 2 (nth_f 0 f); ro_files := unlist 2 (nth_f 1 f);
      ro_dirs := unlist 2 (nth_f 2 f); ro_links := unlist 2 (nth_f 3 f) |}.
 
+(* ------------------------------------------------------------------ option store *)
+Definition dec_okey (name sub : str) : okey := {| k_name := name; k_sub := dec_opt sub |}.
+Definition dec_optobj (f : list str) : okey * optobj :=
+  (dec_okey (nth_f 0 f) (nth_f 1 f),
+   {| o_value := nth_f 2 f;
+      o_parent := match dec_opt (nth_f 3 f) with
+                  | Some p => let '(a, b) := dec_pair p in Some (dec_okey a b)
+                  | None => None
+                  end |}).
+Definition dec_store (opts augs : str) : store :=
+  {| s_options := map (fun x => dec_optobj (fields x)) (unlist 2 opts);
+     s_augments := map (fun x => let f := fields x in (dec_okey (nth_f 0 f) (nth_f 1 f), nth_f 2 f)) (unlist 2 augs) |}.
+
 Definition run (fn : str) (args : list str) : str :=
   if str_eqb fn (s2l "join") then
     match args with a :: ps => pjoin a ps | _ => s2l "?" end
@@ -196,6 +209,12 @@ Definition run (fn : str) (args : list str) : str :=
     match args with base :: unset :: ops => render_installed (mtest_env (mk_test (dec_envvars unset ops)) (dec_dict base)) | _ => s2l "?" end
   else if str_eqb fn (s2l "suite") then
     match args with [suites; sels] => bool_str (test_in_suites (unlist 2 suites) (unlist 2 sels)) | _ => s2l "?" end
+  else if str_eqb fn (s2l "reported") then
+    (* what intro-buildoptions.json says option n is for (sub)project sp *)
+    match args with [opts; augs; sp; n] => enc_opt (reported (list_buildoptions (dec_store opts augs)) sp n) | _ => s2l "?" end
+  else if str_eqb fn (s2l "getopt") then
+    (* what get_option(n) returns in (sub)project sp *)
+    match args with [opts; augs; sp; n] => enc_opt (get_value_for (dec_store opts augs) {| k_name := n; k_sub := Some sp |}) | _ => s2l "?" end
   else if str_eqb fn (s2l "judge") then
     match args with
     | [it; wt; ite; wte; ib; wb; io; wo; ip; wr; ifs; wfs] =>
